@@ -216,6 +216,13 @@ func isFloat(t types.Type) bool {
 type Leaf struct {
 	Name string
 	Sort *Sort
+	// for leaves that lie inside an array-typed struct field: the field path of that array,
+	// the family key of its element type and the leaf name within the element. In the heap
+	// such arrays live in the element family (so that slicing them aliases), at the embedded
+	// reference embRef(struct family, field path, object).
+	ArrField string
+	ElemKey  string
+	ElemLeaf string
 }
 
 var leafCache = map[string][]Leaf{}
@@ -231,47 +238,63 @@ func leavesOf(t types.Type) []Leaf {
 	case *types.Basic:
 		switch {
 		case isBool(t):
-			out = []Leaf{{"", BoolSort}}
+			out = []Leaf{{Name: "", Sort: BoolSort}}
 		case isString(t):
-			out = []Leaf{{"", StrSort64}}
+			out = []Leaf{{Name: "", Sort: StrSort64}}
 		case isFloat(t):
-			out = []Leaf{{"", BVSort(64)}}
+			out = []Leaf{{Name: "", Sort: BVSort(64)}}
 		case u.Kind() == types.UnsafePointer:
-			out = []Leaf{{"", BVSort(64)}}
+			out = []Leaf{{Name: "", Sort: BVSort(64)}}
 		case u.Kind() == types.UntypedNil:
-			out = []Leaf{{"", RefSort}}
+			out = []Leaf{{Name: "", Sort: RefSort}}
 		default:
 			w, _, ok := intInfo(t)
 			if !ok {
 				unsup("leavesOf basic %s", t)
 			}
-			out = []Leaf{{"", BVSort(w)}}
+			out = []Leaf{{Name: "", Sort: BVSort(w)}}
 		}
 	case *types.Slice:
-		out = []Leaf{{"arr", RefSort}, {"off", IntSort}, {"len", IntSort}, {"cap", IntSort}}
+		out = []Leaf{{Name: "arr", Sort: RefSort}, {Name: "off", Sort: IntSort}, {Name: "len", Sort: IntSort}, {Name: "cap", Sort: IntSort}}
 	case *types.Pointer, *types.Map, *types.Chan, *types.Signature:
-		out = []Leaf{{"", RefSort}}
+		out = []Leaf{{Name: "", Sort: RefSort}}
 	case *types.Interface:
-		out = []Leaf{{"tag", BVSort(32)}, {"ref", RefSort}}
+		out = []Leaf{{Name: "tag", Sort: BVSort(32)}, {Name: "ref", Sort: RefSort}}
 	case *types.Struct:
 		for i := 0; i < u.NumFields(); i++ {
 			f := u.Field(i)
+			_, fieldIsArray := f.Type().Underlying().(*types.Array)
 			for _, l := range leavesOf(f.Type()) {
 				n := f.Name()
 				if l.Name != "" {
 					n += "." + l.Name
 				}
-				out = append(out, Leaf{n, l.Sort})
+				nl := Leaf{Name: n, Sort: l.Sort, ArrField: l.ArrField, ElemKey: l.ElemKey, ElemLeaf: l.ElemLeaf}
+				if fieldIsArray {
+					// l comes from the array case below: ElemLeaf/ElemKey set, ArrField empty
+					nl.ArrField = f.Name()
+				} else if l.ArrField != "" {
+					nl.ArrField = f.Name() + "." + l.ArrField
+				}
+				out = append(out, nl)
 			}
 		}
 	case *types.Array:
 		for _, l := range leavesOf(u.Elem()) {
-			out = append(out, Leaf{l.Name, ArraySort(IntSort, l.Sort)})
+			nl := Leaf{Name: l.Name, Sort: ArraySort(IntSort, l.Sort)}
+			if l.ArrField == "" && l.ElemKey == "" {
+				nl.ElemKey = typeKey(u.Elem())
+				nl.ElemLeaf = l.Name
+			} else {
+				// arrays nested in arrays: kept as lifted leaves (not sliceable)
+				nl.ElemKey = ""
+			}
+			out = append(out, nl)
 		}
 	case *types.Tuple:
 		for i := 0; i < u.Len(); i++ {
 			for _, l := range leavesOf(u.At(i).Type()) {
-				out = append(out, Leaf{fmt.Sprintf("%d.%s", i, l.Name), l.Sort})
+				out = append(out, Leaf{Name: fmt.Sprintf("%d.%s", i, l.Name), Sort: l.Sort})
 			}
 		}
 	default:
@@ -314,7 +337,9 @@ func flatten(v Value) []*Term {
 		}
 		return out
 	case FnV:
-		unsup("function value used as a storable value")
+		// a function value stored in memory keeps only its identity (free variables are lost;
+		// calling it after loading is a call about which nothing is known)
+		return []*Term{App("fnref|"+sanitize(fmt.Sprint(x.Fn)), RefSort)}
 	}
 	unsup("flatten %T", v)
 	return nil
